@@ -221,8 +221,19 @@ def check_val(case, rec):
     n, s, lvl = case["x"]
     x = content(n, sw * ch, s) if lvl else bytes(n * sw * ch)
     v = AudioEnergyValidator(thr, sw, ch, use_channel=uc)
-    prev = [bool(v.is_valid(w)) for w in wins]
-    got = bool(v.is_valid(x))
+    if case.get("reuse_buffer"):
+        # the caller keeps one bytearray and refills it for every window (same object, new content)
+        prev = []
+        buf = bytearray()
+        for w in wins + [x]:
+            if len(buf) != len(w):
+                buf = bytearray(len(w))
+            buf[:] = w
+            prev.append(bool(v.is_valid(buf)))
+        got = prev.pop()
+    else:
+        prev = [bool(v.is_valid(w)) for w in wins]
+        got = bool(v.is_valid(x))
     fresh = bool(AudioEnergyValidator(thr, sw, ch, use_channel=uc).is_valid(x))
     again = bool(v.is_valid(x))
     rec.note(case, bool(prev) and prev[-1] != fresh, {"validator"}, out=[prev, got])
@@ -280,6 +291,8 @@ def explicit_cases():
         {"t": "split", "audio": a, "win": [2, 4, 1, True, False], "how": "bytes", "times": 2},
         {"t": "split", "audio": a, "win": [1, 3, 0, False, True], "how": "recorder", "times": 4},
         {"t": "val", "sw": 2, "ch": 2, "uc": "mix", "thr": 40.0, "history": [[4, 1, 1], [4, 2, 0]], "x": [3, 5, 1]},
+        {"t": "val", "sw": 2, "ch": 1, "uc": None, "thr": 40.0, "history": [[4, 1, 1], [4, 2, 0]], "x": [4, 5, 1], "reuse_buffer": True},
+        {"t": "val", "sw": 1, "ch": 1, "uc": None, "thr": 20.0, "history": [[6, 1, 0]], "x": [6, 5, 1], "reuse_buffer": True},
         {"t": "buf", "sr": 10, "sw": 2, "ch": 1, "N": 9, "salt": 1, "reads": [2, 3], "then": 4},
     ]
 
@@ -305,7 +318,7 @@ def strategy(draw):
         w = st.tuples(st.integers(1, 12), st.integers(0, 1000), st.integers(0, 1)).map(list)
         return {"t": "val", "sw": sw, "ch": ch, "uc": draw(st.sampled_from([None, "mix", 0, -1])) if ch > 1 else None,
                 "thr": draw(st.floats(-10, 8 * 20 * sw / 4 + 30, allow_nan=False)), "history": draw(st.lists(w, max_size=5)),
-                "x": draw(w)}
+                "x": draw(w), "reuse_buffer": draw(st.booleans())}
     N = draw(st.integers(0, 30))
     return {"t": "buf", "sr": draw(st.sampled_from([8, 16000])), "sw": draw(st.sampled_from([1, 2, 4])),
             "ch": draw(st.integers(1, 3)), "N": N, "salt": draw(st.integers(0, 1000)),
